@@ -131,11 +131,11 @@ PROPERTIES = {
         clause="the rational kernel is not truncated to integers; the LLL loop returns only what passed the exact membership test. NOT decided: independence, completeness."),
     "C17": dict(
         specs=[S("SETTINGS-W"), S("SETTINGS-C"), S("ROOTS"), S("LOSSY", r"utils/expressions.py"), S("SOLVERFLAG"), S("REBUILD"), S("PARSER", r"_transform_categorical"),
-               S("ORDER", r"cond2arithm=True"), S("COND2ARITHM"), S("FLAGS"), S("TYPERFIX"), S("TYPER"), S("OPTRESOLVE"), S("MEMOKEY"), S("RESOLVE")],
+               S("ORDER", r"cond2arithm=True"), S("COND2ARITHM"), S("FLAGS"), S("TYPERFIX"), S("TYPER"), S("OPTRESOLVE"), S("MEMOKEY"), S("RESOLVE"), S("ARITY")],
         clause="options are written only by the CLI setter and read at call time; settings<->options<->setter census; every root source is complete and approximations clear "
                "the flag; cond2arithm keeps every assignment; categorical expansion keeps index/value/probability aligned. NOT decided: equality of closed forms across settings."),
     "C18": dict(
-        specs=[S("EXCEPT"), S("FALLTHROUGH"), S("QUANT"), S("REBUILD"), S("COND2ARITHM"), S("SECTIONTABLES"), S("SUPPORT", r"get_free_symbols"), S("LOSTUPDATE"), S("DEPSOURCES"), S("VOCAB", r"dispatch|mixing"), S("D2"), S("ABSTRACT"), S("MGF"), S("RESOLVE")],
+        specs=[S("EXCEPT"), S("FALLTHROUGH"), S("QUANT"), S("REBUILD"), S("COND2ARITHM"), S("SECTIONTABLES"), S("SUPPORT", r"get_free_symbols"), S("LOSTUPDATE"), S("DEPSOURCES"), S("VOCAB", r"dispatch|mixing"), S("D2"), S("ABSTRACT"), S("MGF"), S("RESOLVE"), S("ARITY")],
         clause="the safety half only (`whatever Polar refuses, it refuses with an error; a refusal never takes the form of a wrong or partial result`): no exception handler swallows an exception "
                "(each re-raises on every path or is a reviewed complete fallback); no function returns a value on some paths and ends without one on others unless its callers test for the missing value; "
                "section rebuilders and cond2arithm raise for what they cannot convert instead of dropping it; dispatchers on operators / function names are total or end in raise; exponentials and mgf uses sit behind raising checks. "
